@@ -28,12 +28,13 @@ Fixpoint pa_hsem_exp (items : list pa_pexp) (e : pa_hexp) (g : pa_group) : optio
   end.
 Fixpoint pa_hsem (items : list pa_pexp) (p : pa_hpred) (g : pa_group) : bool :=
   match p with
-  | PaHCmp o x y => match pa_hsem_exp items x g, pa_hsem_exp items y g with
-                    | Some a, Some b => pa_cmp_holds o a b
-                    | _, _ => false
-                    end
+  | PaHCmp o x y => pa_cmp_opt o (pa_hsem_exp items x g) (pa_hsem_exp items y g)
   | PaHAnd p q => pa_hsem items p g && pa_hsem items q g
   | PaHOr p q => pa_hsem items p g || pa_hsem items q g
+  (* a CASE used as the condition is true iff its value is a number > 0 (NULL is not true) *)
+  | PaHCase ops es => pa_truthy (pa_case_val ops (map (fun e => pa_hsem_exp items e g) es))
+  | PaHCaseCmp o ops es z =>
+      pa_cmp_opt o (pa_case_val ops (map (fun e => pa_hsem_exp items e g) es)) (pa_hsem_exp items z g)
   end.
 Definition pa_survives (q : pa_query) (g : pa_group) : bool :=
   match pq_having q with None => true | Some p => pa_hsem (pq_items q) p g end.
